@@ -3,7 +3,7 @@
    gen_make_contingency_manager, gen_make_event_tables, gen_contingency_maps (categorical/contingency_impl.py) are
    regenerated from the current source on every run; `mode` is a string (MStr) or a function of the operator module (MOp).
    Only statements; every proof is `exact <lemma>` into coq/proofs/C08.v. *)
-From V Require Import lib.Tree lib.C08_aux gen.Gen_C08_discretise gen.Gen_C08_contingency model.C08 proofs.C08 proofs.C08_additive.
+From V Require Import lib.Tree lib.C08_aux gen.Gen_C08_discretise gen.Gen_C08_contingency model.C08 proofs.C08 proofs.C08_additive proofs.C08_proportion.
 
 (* ---- discretisation ---- *)
 (* for each of the six relations r, both spellings, every rational data value x, threshold c and tolerance tol >= 0:
@@ -68,6 +68,19 @@ Theorem C08_tolerance_guard : forall t : option xv,
              | Some (XInf false) => Err ValueError | Some v => Ok v end.
 Proof. exact tolerance_guard_spec. Qed.
 Print Assumptions C08_tolerance_guard.
+
+(* proportion (binary_discretise_proportion / proportion_exceeding) of one group of finite-or-NaN data against one threshold:
+   the NaN-skipping mean of the discretised values = (number of valid data for which the relation holds) / (number of valid data),
+   NaN when the group has no valid datum *)
+Theorem C08_proportion_is_fraction : forall (r : cmpop) (m : pmode) (c tol : Q) (ds : list xv),
+  0 <= tol -> In m [MStr (mode_name r); MOp r] -> Forall (fun d => xisinf d = false) ds ->
+  nanmean (map (fun d => discretise_cell m (XFin tol) d (XFin c)) ds) =x=
+  match cnt xv data_valid ds with
+  | O => XNaN
+  | n => XFin (inject_Z (Z.of_nat (cnt xv (fun d => data_valid d && data_holds r c tol d) ds)) / inject_Z (Z.of_nat n))
+  end.
+Proof. exact proportion_is_fraction. Qed.
+Print Assumptions C08_proportion_is_fraction.
 
 (* ---- event tables ---- *)
 (* a given threshold is used whatever its value (0 and negatives included), a given operator likewise *)
